@@ -11,6 +11,7 @@ P = {
     "C01.d": "model parser wraps the start rule with EOF and every parser option of the metamodel is forwarded under its own name",
     "C01.e": "attribute default table of _init_obj_attrs agrees with the documented defaults; python_type covers the base types",
     "C01.f": "visitor methods subscript/iterate only non-terminal nodes and every visit_* names a grammar rule",
+    "C01.g": "use_regexp_group: group 1 is the value iff the option is on and the *pattern* has exactly one group (not a property of the individual match)",
   },
   declined="acceptance 'exactly when the PEG semantics accept', whitespace/comment skipping, backtracking, suppression and model equality over all grammars x inputs: properties of Arpeggio's interpreter, not of code shape",
   technique="decision-table extraction (path atoms) + writer/reader table agreement + class-capability check against the Arpeggio source"),
@@ -20,6 +21,10 @@ P = {
     "C02.b": "repetition raises multiplicity; the order table in const.py; ?= inside repetition raises",
     "C02.c": "the list branch of process_node appends every non-separator child in iteration order",
     "C02.d": "plain-assignment decision table: second value for a single-valued attribute raises MULT_ASSIGN_ERROR before the conversion",
+    "C01.e": "(shared with C01) many-valued attributes start as [] for every configuration; base-type defaults follow the documented table",
+    "C08.a": "(shared with C08) list references are stored positionally, not in resolution order",
+    "C08.b": "(shared with C08) the position table is per list, persistent and updated in parallel with the list",
+    "C08.c": "(shared with C08) every queued list reference carries the position of its own element",
   },
   declined="'list exactly when more than one value can be collected' for every grammar (which alternatives co-occur) and absence of Multiple-assignment errors for accepted input",
   technique="def-use dataflow on the accumulator + decision-table extraction over process_node"),
@@ -38,6 +43,7 @@ P = {
     "C04.a": "STRING: for each delimiter the regex's only escape alternative is backslash+delimiter and the converter strips one char per side and unescapes exactly that",
     "C04.b": "BOOL: finite language of the regex equals the documented spellings and the converter maps each to the documented boolean",
     "C04.c": "NUMBER tries STRICTFLOAT before INT, BASETYPE tries NUMBER first; INT/FLOAT/STRICTFLOAT converters are int/float of the whole match",
+    "C01.g": "(shared with C01) with use_regexp_group the text handed to the converter is group 1 only if the pattern has exactly one group",
   },
   declined="numeric and string round-trip equality for all values (transducer equivalence), behaviour of adjacent strings",
   technique="regex AST (re._parser) structure queries + abstract evaluation of the converter lambdas over the finite spelling set"),
@@ -65,6 +71,8 @@ P = {
   decided={
     "C08.a": "because a defer (Postponed) path exists in resolve_one_step, many-valued references must be stored positionally (index derived from the cross-reference) or re-ordered before exposure; a bare append in resolution order is a violation",
     "C02.c": "list references are queued in textual order (list branch of process_node)",
+    "C08.b": "the index of the positional store comes from a position table whose key covers the list's determinants (owning object and attribute) injectively, which outlives a resolution round, and which is updated in parallel with the list (same index, same key) and by nothing else",
+    "C08.c": "every queued list reference carries the position of its own element: start and end from the same node, loop-variant inside the children loop",
   },
   declined="nothing else: with C02.c the clause is the property",
   technique="defer-path / store-path analysis on the resolver loop (CFG + path atoms)"),
